@@ -29,7 +29,6 @@ import itertools
 import operator
 import os
 import re
-import struct
 import traceback
 import zlib
 
@@ -238,6 +237,10 @@ def judge(res, family, shape, code, outside=None, triggers=()):
         res.outcomes.add(("outside", outside, verdict is None))
         return verdict
     res.nontrivial.add(hashlib.sha1(code).hexdigest()[:12])
+    if len(res.samples) < 2:
+        res.sample(dict(family=family, shape=shape, insns=len(code) // 8,
+                        kernel="accepted" if verdict is None
+                        else "rejected"))
     if verdict is None:
         res.count("loaded")
         res.outcomes.add(("loaded", family))
@@ -429,7 +432,11 @@ SCALAR = "RN invalid mem access 'scalar'"
 DEFECTS = {
     KF_XADD: ("xadd-pkt",
               {"BPF_ATOMIC stores into RN pkt is not allowed"}, None),
-    KF_R0: ("hash-read", {SCALAR}, seam_r0),
+    # r0 holds whatever the program (or the generator, as a temporary) put
+    # there before the hash-map variable was read
+    KF_R0: ("hash-read", {SCALAR, "RN invalid mem access 'pkt_end'",
+                          "invalid bpf_context access off=N size=N"},
+            seam_r0),
     KF_DICT: ("dict-call", {SCALAR}, seam_park),
     KF_REOWN: ("helper-restore",
                {SCALAR, "RN invalid mem access 'pkt_end'", "RN !read_ok",
@@ -466,9 +473,11 @@ def rebuild(family, shape, kfs):
         except _Captured as c:
             code = c.code
         except Exception as ex:
-            # parking in r6..r9 only needs more registers: the repaired
-            # generator refuses the program instead of emitting a bad one
-            if KF_DICT in kfs and type(ex).__name__ == "AssembleError" \
+            # parking in r6..r9 only / keeping restored registers owned
+            # needs more registers: the repaired generator refuses the
+            # program instead of emitting a bad one
+            if (KF_DICT in kfs or KF_REOWN in kfs) \
+                    and type(ex).__name__ == "AssembleError" \
                     and str(ex) == "not enough registers":
                 return None, None
             return None
@@ -486,14 +495,18 @@ def classify(family, shape, norm, code, trig):
     if "exit-then-else" in trig and norm == "unreachable insn N":
         return KF_EXIT
     cands = [k for k in DEFECT_ORDER if DEFECTS[k][0] in trig]
+    refused = None
     for n in range(1, len(cands) + 1):
         for sub in itertools.combinations(cands, n):
             if not any(norm in DEFECTS[k][1] for k in sub):
                 continue
             out = rebuild(family, shape, sub)
             if out is not None and out[1] is None:
-                return sub[0] if n == 1 else list(sub)
-    return None
+                if out[0] is not None:
+                    return sub[0] if n == 1 else list(sub)
+                if refused is None:     # weaker: repaired generator refuses
+                    refused = sub[0] if n == 1 else list(sub)
+    return refused
 
 
 # ====================================================================
@@ -521,13 +534,36 @@ def const_trouble(tree, W):
         return const_trouble(tree[1], W)
     if k == "cmp":
         return const_trouble(tree[2], W) or const_trouble(tree[3], W)
-    r = tree[2]
-    if r[0] == "const":
-        if k in ("<<", ">>") and not 0 <= r[1] < W:
+    c = const_value(tree[2])
+    if c is not None:
+        if k in ("<<", ">>") and not 0 <= c < W:
             return "constant shift amount outside [0, width)"
-        if k in ("//", "%", "/") and r[1] == 0:
+        if k in ("//", "%", "/") and c == 0:
             return "division by the constant 0"
     return const_trouble(tree[1], W) or const_trouble(tree[2], W)
+
+
+def const_value(tree):
+    """the Python number a constant-only subtree folds to (the harnesses
+    hand such subtrees to the DSL as one folded Python constant)"""
+    k = tree[0]
+    if k == "const":
+        return tree[1]
+    if k in ("reg", "loc", "pkt", "arr", "cmp"):
+        return None
+    vals = [const_value(t) for t in tree[1:]]
+    if any(v is None for v in vals):
+        return None
+    try:
+        if k == "neg":
+            return -vals[0]
+        if k == "abs":
+            return abs(vals[0])
+        if k == "/":
+            return vals[0] / vals[1]
+        return BINOPS[k](*vals)
+    except (ZeroDivisionError, TypeError, ValueError, OverflowError):
+        return None
 
 
 # ---- C01
@@ -583,8 +619,17 @@ def _b_c04(s, w):
 
 def _c04_triggers(stmt):
     t = set()
-    if stmt[0] == "iadd" and stmt[1][0] in ("pv", "pw"):
+    k = stmt[0]
+    if k == "iadd" and stmt[1][0] in ("pv", "pw"):
         t.add("xadd-pkt")
+    if k == "hget":
+        t |= {"hash-read", "helper-restore"}
+    if k in ("hset", "hsetx", "hsetr"):
+        t.add("helper-restore")
+    if k == "hset":
+        t.add("hash-set-narrow")
+    if k in ("dupd", "dlook"):
+        t |= {"dict-call", "helper-restore"}
     return t
 
 
@@ -633,7 +678,7 @@ def _b_c08(s, w):
 def _c08_item(item, res):
     k, prefix, percpu = item
     for layout in c08.layouts_with_prefix(k, prefix):
-        if k < 3 or take("c08", (layout, percpu)):
+        if k < 2 or take("c08" if k == 3 else "c08k2", (layout, percpu)):
             submit(res, "c08", dict(layout=layout, percpu=percpu))
 
 
@@ -1711,8 +1756,8 @@ BUILDERS = {
 # driver
 # ====================================================================
 STRIDES = {
-    "quick": dict(c01=5, c02=3, c03=3, c04=10, c07=5, c08=40),
-    "thorough": dict(c01=5, c02=4, c03=2, c04=6, c07=3, c08=4),
+    "quick": dict(c01=8, c02=4, c03=4, c04=16, c07=8, c08=40, c08k2=4),
+    "thorough": dict(c01=5, c02=4, c03=2, c04=8, c07=3, c08=4),
 }
 
 
@@ -1772,11 +1817,6 @@ def run(ctx):
         if k > 1:
             res.caps_hit.append(f"{fam}: 1/{k} slice of the harness' "
                                 f"enumeration (rotated by the seed)")
-    res.sample(dict(family="hash", body=[["set", ["l", 2], ["h", 0]]],
-                    regs={"0": 7}))
-    res.sample(dict(family="group", devices=[["Motor", "ii"],
-                                             ["Counter", None]],
-                    layout="mixed"))
     res.assumptions += [
         "the verdict is that of this kernel's verifier with root "
         "capabilities (XDP program type, GPL licence)",
